@@ -525,6 +525,10 @@ func VerifyFunc(prog *Program, smt *SMT, eff *Effects, key string, fc *FuncContr
 	if fc != nil && fc.PanicFree {
 		fv.noF2I = true
 	}
+	if fc != nil && fc.FloatsRounded {
+		fv.fround = true
+		fv.tag("floats-rounded: float64 +,-,*,/ modelled as exact result times (1+e), |e| <= 2^-53 (round to nearest; no overflow to infinity, no underflow, no NaN)")
+	}
 	if fc != nil && fc.Arith == "wrapu" {
 		fv.wrapUnsigned = true
 	}
